@@ -1,15 +1,16 @@
 """C11 - adjoints are semiring derivatives of the forward value."""
 from harness import check, replay
 
-LIMIT = {"quick": 4000, "thorough": 60000}
+LIMIT = {"quick": 4000, "thorough": 30000}
 
 
 def run(tier):
     out = check.Outcome("C11", tier)
     rp = replay.Replay("harness.modes:c11")
     for sr in ("addmul", "logaddexp"):
-        rp.run_lens("semiring_" + sr, cfg="adjoint_" + sr, limit=LIMIT[tier])
-        rp.run_lens("adjsubs_" + sr, limit=LIMIT[tier])
+        tmo = 900 if tier == "quick" else 3000
+        rp.run_lens("semiring_" + sr, cfg="adjoint_" + sr, limit=LIMIT[tier], timeout=tmo)
+        rp.run_lens("adjsubs_" + sr, limit=LIMIT[tier], timeout=tmo)
     out.add_replay(rp, "adjoint")
     out.coverage = check.replay_coverage(
         rp, "every sum-product expression of the (add,mul) and (logaddexp,add) semiring lenses whose tensor leaves are "
